@@ -7,7 +7,8 @@ from vp import sut
 ID = "C19"
 LEVEL = "exploration"
 RULE = ("Case = n in 30..300 true events with irregular gaps in [0.5, 10] s regenerated from a seed (uniform / bimodal at "
-        "both bounds incl. exact 0.5 and 10 / skewed to short gaps / multiples of 1/8, 1/4 or 1/2 s), start 0..5000 s, "
+        "both bounds incl. exact 0.5 and 10 / skewed to short gaps / uniform in a band at least 1 s wide / 8-10 s with a "
+        "fifth of 0.5-0.6 s gaps / multiples of 1/8, 1/4 or 1/2 s), start 0..5000 s, "
         "drift in [-100, 100] ppm incl. 0 and both bounds, offset in [-600, 600] s incl. bounds, 0..5 events removed on "
         "each side at any position (ends and runs favoured), jitter amplitude J in [0, 0.1] ms (uniform, +-J, or the "
         "adversarial sign(t - mean) pattern), linear or interpolating mode, optionally the last gap re-drawn so that "
@@ -24,7 +25,7 @@ ASSUMPTIONS = ["'irregular spacing' is read as gaps that vary over the range: ne
                "default tbin=0.1 only; inputs are float64, sorted, one dimensional",
                "held-out times lie inside the span of the returned pairs (no extrapolation claim)",
                "the drift tolerance assumes the reported drift is a least-squares slope over the returned pairs"]
-BUDGET = {"quick": 20000, "thorough": 500000}
+BUDGET = {"quick": 16000, "thorough": 500000}
 SHRINK = {"quick": True, "thorough": True}
 
 TOL_MAP = 1e-3          # s, "millisecond-scale tolerance" of the statement
@@ -49,8 +50,12 @@ def _st_missing(n):
 @st.composite
 def _case(draw):
     n = draw(st.one_of(st.integers(30, 300), st.integers(30, 60), st.sampled_from([30, 31, 299, 300])))
-    gap_mode = draw(st.sampled_from(["uniform", "uniform", "bounds", "skewed", "grid"]))
+    gap_mode = draw(st.sampled_from(["uniform", "uniform", "bounds", "skewed", "grid", "band", "long_short"]))
     case = {"n": n, "gap_mode": gap_mode, "seed": draw(st.integers(0, 2 ** 32 - 1))}
+    if gap_mode == "band":
+        # gaps uniform in [lo, lo + width], width >= 1 s (narrower bands are nearly periodic, see ASSUMPTIONS)
+        width = draw(st.floats(1.0, 9.5))
+        case["band"] = [draw(st.floats(0.5, 10.0 - width)), width]
     exact = False
     if gap_mode == "grid":
         case["grid"] = draw(st.sampled_from([0.125, 0.25, 0.5]))
@@ -70,7 +75,7 @@ def _case(draw):
     case["miss_a"] = draw(_st_missing(n))
     case["miss_b"] = draw(_st_missing(n))
     case["linear"] = draw(st.booleans())
-    case["intspan"] = draw(st.integers(0, 7)) == 0
+    case["intspan"] = draw(st.sampled_from([False] * 9 + [True]))
     return case
 
 
@@ -93,6 +98,13 @@ def _gaps(case, rng):
         return g
     if mode == "skewed":
         return 0.5 + 9.5 * rng.uniform(0, 1, m) ** 3
+    if mode == "band":
+        lo, width = case["band"]
+        return np.clip(rng.uniform(lo, lo + width, m), 0.5, 10.0)
+    if mode == "long_short":
+        # long trains of 8-10 s gaps (largest accumulated drift) with a fifth of very short gaps (steepest local slope
+        # error of an interpolant under jitter)
+        return np.where(rng.uniform(0, 1, m) < 0.2, rng.uniform(0.5, 0.6, m), rng.uniform(8.0, 10.0, m))
     g = case["grid"]
     return g * rng.integers(int(round(0.5 / g)), int(round(10.0 / g)) + 1, m)
 
